@@ -1,7 +1,8 @@
 (* C03 -- Cancelable mode holds a trace until its root finishes, then delivers it whole.
    Only pinned statements, closed by [exact lemma], with Print Assumptions. *)
 From Coq Require Import List NArith Bool.
-From FT Require Import Model.Base Model.Records Model.Collector Proofs.CollectorProofs Proofs.DeliveryProofs.
+From FT Require Import Model.Base Model.Local Model.Records Model.Spsc Model.Collector Model.System Proofs.CollectorProofs Proofs.DeliveryProofs
+     Proofs.DrainProofs Proofs.EndToEndProofs Proofs.WholeProofs.
 Import ListNotations.
 Open Scope N_scope.
 
@@ -51,8 +52,85 @@ Example C03_commit_delivers_whole_example :
   = [(7, 5, 4); (7, 4, 100)].
 Proof. vm_compute. reflexivity. Qed.
 
+(* OVER THE SCHEDULER.  In any reachable state of the system model, cancelable configuration:
+   when a cycle begins (collector idle, reporter installed) and runs to the end of its drain,
+   interleaved in any way with calls, pushes and exits of any threads, and the commit of c
+   was in a registered thread's ring at the beginning (c active, or its start in a ring as
+   well; c not cancelled in this batch): the ONE report of that cycle contains the record of
+   every span of every SubmitSpans for c that was in any registered thread's ring at the
+   beginning, and c is gone afterwards.  A trace whose spans and root were all finished
+   (and pushed) before a cycle begins is delivered whole, in one report, by that cycle. *)
+Theorem C03_whole_trace_in_rings_is_reported_in_one_report :
+  forall dbg ringcap stackcap qcap h0 h c,
+    let s := fst (run (sys_init dbg ringcap stackcap qcap) h0) in
+    let s1 := fst (run s (ACBegin :: h)) in
+    s_pc s = PIdle -> s_installed s = true -> no_process h ->
+    s_pc s1 = PDrained -> s_cancelable s1 = true ->
+    (exists tc, In (tc, CCommit c) (ring_commands s)) ->
+    amem c (s_active s1) = true \/ (exists ts, In (ts, CStart c) (ring_commands s)) ->
+    ~ In c (b_drop (s_batch s1)) ->
+    exists recs st n,
+      snd (step s1 ACProcess) = OReport recs st n /\
+      amem c (s_active (fst (step s1 ACProcess))) = false /\
+      forall t sp tk it, In (t, CSubmit sp tk) (ring_commands s) -> In it tk -> ti_collect it = c ->
+        incl (coll_cores (mkColl sp (ti_trace it) (ti_parent it))) (map core3 recs).
+Proof. exact whole_trace_in_rings_is_reported_in_one_report. Qed.
+
+(* ACROSS CYCLES.  A SubmitSpans for c processed by one cycle (c active or started, neither
+   cancelled nor committed in that batch) is held by the collector -- through any history
+   without a process step or a new reporter, whatever threads and drains do -- and the cycle
+   whose batch carries the commit of c (c not started again, not cancelled) reports its spans
+   and forgets c.  With C03_hold (nothing of c is reported before its commit) this is "held
+   until the root finishes, then delivered" for everything that reached the collector. *)
+Theorem C03_held_submit_is_reported_with_the_commit :
+  forall s1 h s2 c sp tk it,
+    s_pc s1 = PDrained -> s_cancelable s1 = true ->
+    amem c (s_active s1) = true \/ In c (b_start (s_batch s1)) ->
+    ~ In c (b_drop (s_batch s1)) -> ~ In c (b_commit (s_batch s1)) ->
+    In (sp, tk) (b_submit (s_batch s1)) -> In it tk -> ti_collect it = c ->
+    no_process_no_install h ->
+    s2 = fst (run (fst (step s1 ACProcess)) h) ->
+    s_pc s2 = PDrained -> s_cancelable s2 = true ->
+    ~ In c (b_start (s_batch s2)) -> ~ In c (b_drop (s_batch s2)) -> In c (b_commit (s_batch s2)) ->
+    exists recs st n,
+      snd (step s2 ACProcess) = OReport recs st n /\
+      incl (coll_cores (mkColl sp (ti_trace it) (ti_parent it))) (map core3 recs) /\
+      amem c (s_active (fst (step s2 ACProcess))) = false.
+Proof. exact held_submit_is_reported_with_the_commit. Qed.
+
+Theorem C03_held_after_process :
+  forall conv am b c,
+    amem c am = true \/ In c (b_start b) -> ~ In c (b_drop b) -> ~ In c (b_commit b) ->
+    colls_at c (fst (process conv true am b)) =
+    colls_at c (do_drops true (do_starts am (b_start b)) (b_drop b)) ++ items_for c (b_submit b) /\
+    amem c (fst (process conv true am b)) = true.
+Proof. exact held_after_process. Qed.
+
+(* non-vacuity: a root and a child on one thread.  (1) everything pushed before the cycle:
+   one report with both records.  (2) the child's submit drained by a first cycle (nothing
+   reported, one collection held), the root finished afterwards: the second cycle reports both *)
+Example C03_whole_examples :
+  let pre := [AInstall true; ASpawn 1 1 0; ACall 1 (KRoot 1 2 77 5 true); APush 1; ACall 1 (KChild 2 3 1);
+              ACall 1 (KDropSpan 2); APush 1] in
+  let s := fst (run (sys_init false 8 16 16) (pre ++ [ACall 1 (KDropSpan 1); APush 1; APush 1])) in
+  let s1 := fst (run s [ACBegin; ACPop; ACPop; ACPop; ACPop; ACPop; ACCheck]) in
+  let t1 := fst (run (sys_init false 8 16 16) (pre ++ [ACBegin; ACPop; ACPop; ACPop; ACCheck])) in
+  let t2 := fst (run (fst (step t1 ACProcess)) [ACall 1 (KDropSpan 1); APush 1; APush 1; ACBegin; ACPop; ACPop; ACPop; ACCheck]) in
+  (s_pc s, s_installed s, s_pc s1, s_cancelable s1, b_drop (s_batch s1), b_commit (s_batch s1)) = (PIdle, true, PDrained, true, [], [0]) /\
+  match snd (step s1 ACProcess) with OReport recs _ _ => map core3 recs | _ => [] end
+    = [(77, 4294967298, 4294967297); (77, 4294967297, 5)] /\
+  (s_pc t1, b_start (s_batch t1), b_commit (s_batch t1), s_pc t2, b_start (s_batch t2), b_commit (s_batch t2))
+    = (PDrained, [0], [], PDrained, [], [0]) /\
+  match snd (step t1 ACProcess) with OReport recs held _ => (map core3 recs, held) | _ => ([], []) end = ([], [(0, 1, 0)]) /\
+  match snd (step t2 ACProcess) with OReport recs _ _ => map core3 recs | _ => [] end
+    = [(77, 4294967298, 4294967297); (77, 4294967297, 5)].
+Proof. vm_compute. repeat split; reflexivity. Qed.
+
 Print Assumptions C03_hold.
 Print Assumptions C03_no_commit_no_report.
 Print Assumptions C03_nothing_afterwards.
 Print Assumptions C03_commit_deactivates.
 Print Assumptions C03_commit_delivers_whole.
+Print Assumptions C03_whole_trace_in_rings_is_reported_in_one_report.
+Print Assumptions C03_held_submit_is_reported_with_the_commit.
+Print Assumptions C03_held_after_process.
